@@ -17,6 +17,7 @@ fn main() {
     let cfg = Cfg::parse(&args[2..]);
     vnet::trace::install();
     vnet::install_quiet_panic_hook();
+    vnet::enable_wake_contract_check(true);
     if args[1] == "noop" {
         return;
     }
@@ -42,6 +43,16 @@ fn main() {
         rep.violation("C15/codegen-refuses-a-valid-interface", f.to_string(), serde_json::json!({"monitor": "c15"}));
     }
     rep.notes.push(format!("corpus seed {} size {}", gen::CORPUS_SEED, gen::CORPUS_SIZE));
+    let (breaches, what) = vnet::take_wake_contract_breaches();
+    rep.add("wake_contract_breaches", breaches);
+    if breaches > 0 {
+        let prop = name.to_uppercase();
+        rep.violation(
+            &format!("{prop}/future-returned-pending-without-arranging-a-wake-up"),
+            format!("{breaches} poll(s) returned Pending although the task's waker neither fired during the poll nor was registered with any source of readiness: {}", what.join("; ")),
+            serde_json::json!({"monitor": name}),
+        );
+    }
     let js = serde_json::to_string(&rep.to_json()).unwrap();
     match &cfg.out {
         Some(p) => std::fs::write(p, js).expect("write report"),
